@@ -41,3 +41,18 @@ Theorem C09_no_contents : forall m o m' mp, ro_contents o = false -> eff_prefixe
   rewrite_with_mapping m o = Ok (m', mp) -> forall j, get_source_contents m' j = None.
 Proof. exact ContentsProofs.C09_no_contents. Qed.
 Print Assumptions C09_no_contents.
+
+(* the source of a rewritten token in declarative form: the first listed prefix (taken with a trailing '/') that the resolved
+   source starts with is removed; "~" stands for the common prefix of the raw source names and is tried last *)
+From SM Require Import Spec.Rules Proofs.RulesProofs.
+Theorem C09_stripped_source : forall m o t,
+  (let '(_, _, _, _, src, _, _) := rview m o t in src)
+  = option_map (spec_strip (filter (fun p => negb (bytes_eqb p tilde)) (ro_prefixes o)
+                            ++ (if existsb (fun p => bytes_eqb p tilde) (ro_prefixes o)
+                                then match find_common_prefix (sm_sources m) with Some c => [c] | None => [] end else [])))
+               (tok_source m t).
+Proof.
+  intros m o t. unfold rview. rewrite <- eff_prefixes_spec.
+  destruct (tok_source m t); [cbn [option_map]; rewrite strip1_spec|]; reflexivity.
+Qed.
+Print Assumptions C09_stripped_source.
